@@ -118,7 +118,8 @@ func (runInfo *runInfoStruct) runSingleStmt() {
 		if runInfo.err != nil {
 			return
 		}
-		runInfo.err = newStringError(stmt, fmt.Sprint(runInfo.rv.Interface()))
+		// (not newStringError: a thrown value that prints as "" is an error too)
+		runInfo.err = &Error{Message: fmt.Sprint(runInfo.rv.Interface()), Pos: stmt.Position()}
 
 	// ModuleStmt
 	case *ast.ModuleStmt:
